@@ -45,6 +45,9 @@ func (c *appendAssignChecker) VisitStmt(stmt ast.Stmt) {
 		if !ok || qualifiedName(call.Fun) != "append" || !isBuiltinFunc(c.ctx, call.Fun) {
 			continue
 		}
+		if len(call.Args) == 0 {
+			continue // Ill-typed code: append().
+		}
 		c.checkAppend(assign.Lhs[i], call)
 	}
 }
